@@ -32,6 +32,9 @@ type Ctx struct {
 	// KeepDeprecated makes Equal expect deprecated message fields to be present when the
 	// expected value has them (C04: a newer peer still transmits them; a reader decodes them).
 	KeepDeprecated bool
+	// EmitDeprecated makes the reference encoder transmit deprecated message fields that
+	// are present in the value (what an older or foreign writer does).
+	EmitDeprecated bool
 }
 
 // Role describes one byte of an encoding.
@@ -251,7 +254,7 @@ func (c *Ctx) EncodeDef(w *Writer, d *schema.Def, v any, path string) error {
 		w.put(le(4, 0), "msg.len", path)
 		for i, f := range fs {
 			pv, ok := present(l[i])
-			if !ok || f.Deprecated {
+			if !ok || (f.Deprecated && !c.EmitDeprecated) {
 				continue
 			}
 			w.put([]byte{byte(f.Index)}, "msg.index", path+"."+f.Name)
